@@ -100,25 +100,29 @@ def run(chk):
     groups = [ex[i:i + B] for i in range(0, len(ex), B)]
     cases = [(DOC, "", [e for _, e in g]) for g in groups]
     impl, spec = XP.run_queries("qfresh", cases, quirks="")
-    cur = lib.run_lines(lib.model_driver(), [lib.req("queryq", "r", t, b, *es) for t, b, es in cases], timeout=900)
-    findings = {f["id"]: f for f in lib.load_findings("C09") if f["kind"] == "known"}
+    cur = lib.run_lines(lib.model_driver(), [lib.req("queryq", "rz", t, b, *es) for t, b, es in cases], timeout=900)
+    from props import xpchecks
+    exp = xpchecks.Explainer("C09", chk, cases)
     mfail, tdis = [], []
     kinds, outcomes = {}, {}
-    for g, a, s, c in zip(groups, impl, spec, cur):
+    for gi, (g, a, s, c) in enumerate(zip(groups, impl, spec, cur)):
         fa, _ = XP.split_answer(a)
         fs, _ = XP.split_answer(s)
         fc, _ = XP.split_answer(c)
         if len(fa) != len(g):
             fa = (fa + ["abort"] * len(g))[:len(g)]
-        for (kind, e), x, y, z in zip(g, fa, fs, fc):
+        for ei, ((kind, e), x, y, z) in enumerate(zip(g, fa, fs, fc)):
             kinds[kind] = kinds.get(kind, 0) + 1
             cls = x.split(":")[0] if not x.startswith("err") else x
             outcomes[cls] = outcomes.get(cls, 0) + 1
             chk.count(e, nontrivial=not x.startswith("err:arity"))
             x = XP.strip_impl(x)
             if x != y:
+                if exp.explained(gi, ei, len(g), DOC, e, x, y):
+                    chk.cov["known_finding_cases"] = chk.cov.get("known_finding_cases", 0) + 1
+                    continue
                 mfail.append((e, x, y))
-            elif x != z:
+            elif x != z and y == z:
                 tdis.append((e, x, z))
     chk.cov["expression_kinds"] = kinds
     chk.cov["outcomes_impl"] = outcomes
